@@ -77,6 +77,7 @@ type gen struct {
 	p       Profile
 	h       *History
 	nScopes int
+	noLay   bool
 	parent  []int
 	// planned keys: key -> home scopes where some constructor provides it
 	planned []plannedKey
@@ -194,6 +195,9 @@ func (g *gen) addFaults(f *Fn) {
 	kind := "err"
 	if g.coin(g.p.PPanic) {
 		kind = "panic"
+		if g.coin(g.p.PDigErr) {
+			kind = "panicdigerr"
+		}
 	} else {
 		f.HasErr = true
 		if g.coin(g.p.PDigErr) {
@@ -211,13 +215,27 @@ func (g *gen) addFaults(f *Fn) {
 	case 3:
 		f.Faults[0] = kind
 	}
-	if kind == "panic" && g.coin(0.3) {
+	if kind != "err" && kind != "digerr" && g.coin(0.3) {
 		f.HasErr = true
 	}
 }
 
 // randEnc nests leaves 0..n-1 into objects. needObj[i]: leaf i needs tags and must be inside an object.
-func (g *gen) randEnc(n int, needObj []bool, maxDepth int) []Enc {
+// randLay draws a struct layout for an object (see Enc.Lay).
+func (g *gen) randLay(in bool) int {
+	if g.noLay {
+		return 0 // the declared pool was generated with the default layout only
+	}
+	if !g.coin(0.3) {
+		return 0
+	}
+	if in {
+		return []int{1, 2, 3, 4}[g.r.Intn(4)]
+	}
+	return []int{1, 4}[g.r.Intn(2)]
+}
+
+func (g *gen) randEnc(n int, needObj []bool, maxDepth int, in bool) []Enc {
 	if n == 0 {
 		return nil
 	}
@@ -229,12 +247,12 @@ func (g *gen) randEnc(n int, needObj []bool, maxDepth int) []Enc {
 			// start an object spanning [i, j) ?
 			if depth < maxDepth && (g.coin(0.35) || (!inside && needObj[i])) {
 				j := i + 1 + g.r.Intn(hi-i)
-				out = append(out, Enc{IsObj: true, Obj: build(i, j, depth+1, true)})
+				out = append(out, Enc{IsObj: true, Obj: build(i, j, depth+1, true), Lay: g.randLay(in)})
 				i = j
 				continue
 			}
 			if !inside && needObj[i] {
-				out = append(out, Enc{IsObj: true, Obj: []Enc{{Leaf: i}}})
+				out = append(out, Enc{IsObj: true, Obj: []Enc{{Leaf: i}}, Lay: g.randLay(in)})
 			} else {
 				out = append(out, Enc{Leaf: i})
 			}
@@ -264,13 +282,13 @@ func (g *gen) encode(f *Fn, viaOpt bool) {
 	for i, p := range f.Params {
 		np[i] = p.K.Name != "" || p.Optional || p.K.Group != ""
 	}
-	f.PEnc = g.randEnc(len(f.Params), np, 3)
+	f.PEnc = g.randEnc(len(f.Params), np, 3, true)
 	if !viaOpt {
 		nr := make([]bool, len(f.Results))
 		for i, r := range f.Results {
 			nr[i] = r.K.Name != "" || r.K.Group != "" || r.Whole
 		}
-		f.REnc = g.randEnc(len(f.Results), nr, 2)
+		f.REnc = g.randEnc(len(f.Results), nr, 2, false)
 	}
 }
 
@@ -351,7 +369,9 @@ func genHistory(r *rand.Rand, p Profile) *History {
 					}
 					// dig.As "cannot be provided for constructors which produce result objects":
 					// names and groups must then come from options
-					if !viaOpt && (x.K.Name != "" || x.K.Group != "") {
+					// (group-tagged fields of a result object ignore As; name tags are fine: As is
+					// forwarded to every non-group field of a result object)
+					if !viaOpt && x.K.Group != "" {
 						ok = false
 					}
 				}
@@ -388,8 +408,7 @@ func genHistory(r *rand.Rand, p Profile) *History {
 		c.f.Variadic = g.coin(p.PVariadic)
 		g.addFaults(c.f)
 		viaOpt := c.op.NameOpt != "" || c.op.GroupOpt != ""
-		if len(c.op.As) > 0 {
-			// As with result objects is outside the wiring claim: keep results positional
+		if len(c.op.As) > 0 && (viaOpt || g.coin(0.5)) {
 			g.encodeParamsOnly(c.f)
 		} else {
 			g.encode(c.f, viaOpt)
@@ -499,7 +518,11 @@ func genHistory(r *rand.Rand, p Profile) *History {
 	var seq []Op
 	extra := func() {
 		if g.coin(p.PVisualize) {
-			seq = append(seq, Op{Kind: OpVisualize})
+			v := Op{Kind: OpVisualize}
+			if g.coin(0.5) {
+				v.VisErrOf = -1 // resolved below: the error of the latest Invoke
+			}
+			seq = append(seq, v)
 		}
 		if g.coin(p.PVisualize / 2) {
 			seq = append(seq, Op{Kind: OpString})
@@ -574,6 +597,20 @@ func genHistory(r *rand.Rand, p Profile) *History {
 	}
 	for _, op := range seq {
 		if op.Kind == OpVisualize || op.Kind == OpString {
+			if op.VisErrOf == -1 {
+				op.VisErrOf = 0
+				// only when no registration lies in between: the picture is judged against the
+				// container state in which the error arose
+				for k := len(out) - 1; k >= 0; k-- {
+					if out[k].Kind == OpInvoke {
+						op.VisErrOf = k + 1
+						break
+					}
+					if out[k].Kind == OpProvide || out[k].Kind == OpDecorate {
+						break
+					}
+				}
+			}
 			out = append(out, op)
 			continue
 		}
